@@ -40,6 +40,63 @@ def parse_reports(text):
     return out
 
 
+def sc_evict_stalled(rng, cid, store):
+    """a chunked upload whose body arrives slowly becomes the least recently used session while other clients open more
+    sessions than the limit: the eviction goroutine removes it while its handler is still copying (grace period disabled or not)"""
+    conf = mkconf(store=store, withsubj=False, uploadmax=rng.choice([1, 2, 3]), grace_ms=rng.choice([-1, -1, 0, 3600000]))
+    steps = [upload_post("u", digest=dg("sha256", b"{}"), body=b"{}"), upload_post("u")]
+    sid = "$SID1$"
+    data = bytes(rng.randrange(256) for _ in range(rng.randrange(2000, 20000)))
+    patch = upload_patch("u", sid, None, state_token(0), data)
+    # the other clients are goroutines of their own (no synchronisation with the stalled handler but the store's own)
+    others = []
+    for j in range(conf["uploadmax"] + rng.randrange(1, 4)):
+        p = upload_post("u")
+        p["impl"] = dict(p["impl"], idx=2000 + j)
+        others.append([p["impl"]])
+    mids = [dict(kind="async", impl=dict(op="async", par=others), model="(skip)"), special("sleep", secs=0.1)]
+    sp = split(patch, len(data) // 2, mids)
+    steps += [sp, dict(kind="join", impl=dict(op="join", secs=5.0), model="(skip)"), upload_get("u", sid), tag_list("u"), special("close")]
+    for st in steps:
+        st["model"] = "(skip)"
+    return dict(id=cid, conf=conf, steps=steps, scenario="evict-stalled-upload")
+
+
+def sc_children(rng, cid, store):
+    """children of an index live in the in-memory child list: one client pulls them by digest while others tag and untag a
+    child, delete one and push the index again"""
+    conf = mkconf(store=store, withsubj=False)
+    repo = "p/q"
+    cfg = b"{}"
+    steps = [upload_post(repo, digest=dg("sha256", cfg), body=cfg)]
+    kids = []
+    for j in range(rng.randrange(3, 6)):
+        m = image_manifest(desc(MT_CFG, cfg), [], annotations={"platform": str(j), "case": str(cid)})
+        kids.append(m)
+        steps.append(manifest_put(repo, dg("sha256", m), m, ctype=MT_OCI_M))
+    idx = index_manifest([desc(MT_OCI_M, m) for m in kids], media_type=MT_OCI_I, annotations={"case": str(cid)})
+    steps.append(manifest_put(repo, "multi", idx, ctype=MT_OCI_I))
+    reader = []
+    for _ in range(rng.randrange(20, 40)):
+        reader.append(manifest_get(repo, dg("sha256", rng.choice(kids)), head=rng.random() < 0.3))
+    writer = []
+    for _ in range(rng.randrange(4, 9)):
+        k = rng.choice(kids)
+        r = rng.random()
+        if r < 0.4:
+            writer += [manifest_put(repo, "one", k, ctype=MT_OCI_M), manifest_delete(repo, "one")]
+        elif r < 0.6:
+            writer += [manifest_delete(repo, dg("sha256", k)), manifest_put(repo, dg("sha256", k), k, ctype=MT_OCI_M)]
+        else:
+            writer.append(manifest_put(repo, "multi", idx, ctype=MT_OCI_I))
+    threads = [reader, writer] + ([[manifest_get(repo, "multi") for _ in range(10)]] if rng.random() < 0.5 else [])
+    steps.append(dict(kind="par", impl=dict(op="par", par=[[s["impl"] for s in th] for th in threads]), model="(skip)"))
+    steps += [tag_list(repo), special("close")]
+    for st in steps:
+        st["model"] = "(skip)"
+    return dict(id=cid, conf=conf, steps=steps, scenario="children-by-digest")
+
+
 def run(ctx):
     ok_build, blog = ctx.coq_build()
     ok_props, plog = ctx.coq_props() if ok_build else (False, blog)
@@ -51,7 +108,7 @@ def run(ctx):
         for i in range(18):
             cases.append(c11.gen_case(rng, len(cases) + 1, ("mem", "dir", "memdir")[i % 3]))
         for store in ("mem", "dir"):
-            for f, n in ((c12.sc_waiter, 2), (c12.sc_close_ticker, 1), (c12.sc_uploads, 3), (c12.sc_mixed, 4)):
+            for f, n in ((c12.sc_waiter, 2), (c12.sc_close_ticker, 1), (c12.sc_uploads, 3), (c12.sc_mixed, 4), (sc_evict_stalled, 3), (sc_children, 3)):
                 for _ in range(n):
                     cases.append(f(rng, len(cases) + 1, store))
     logp = os.path.join(ctx.work, "race.log")
